@@ -230,7 +230,8 @@ TBind == /\ IsEvent("bind")
 TUnbind == IsEvent("unbind") /\ Unbind /\ Matches /\ Observed(Ev.obs)
 
 TBeginBatch == /\ IsEvent("begin_batch")
-               /\ BeginBatch(Has(Ev.args, "no_auto") /\ Ev.args.no_auto) /\ Matches /\ Observed(Ev.obs)
+               /\ BeginBatchPre(Has(Ev.args, "no_auto") /\ Ev.args.no_auto, IF Has(Ev.args, "presize") THEN Ev.args.presize ELSE 0)
+               /\ Matches /\ Observed(Ev.obs)
 TEndBatch == IsEvent("end_batch") /\ EndBatch /\ Matches /\ Observed(Ev.obs)
 
 TCommitSkip == IsEvent("commit_skip") /\ CommitSkip(PayEnd(Ev.obs)) /\ Matches /\ Observed(Ev.obs)
